@@ -29,25 +29,34 @@ Proof. reflexivity. Qed.
 Lemma drain_close c a : drain FUEL [IClose] c a = Some (c, [EClose], []).
 Proof. reflexivity. Qed.
 
-Lemma drain_httperror code v c a :
-  drain FUEL [IHttpError code v] c a
-  = Some (set_cli c None, [EReject code; EWrite code v true; EClose], []).
-Proof. reflexivity. Qed.
+(* the guarded release never raises KeyError *)
+Definition fin (c : conn) : conn := match cli c with Some _ => set_cli c None | None => c end.
+
+Lemma finish_total c : finish c = Some (fin c).
+Proof. unfold finish, del_cli, fin. destruct (cli c); reflexivity. Qed.
+
+Lemma fin_cli c : cli (fin c) = None.
+Proof. unfold fin. destruct (cli c) eqn:E; [reflexivity|exact E]. Qed.
+
+Lemma drain_httperror code v hd c a :
+  drain FUEL [IHttpError code v hd] c a
+  = Some (fin c, [EReject code; EWrite code v true hd; EClose], []).
+Proof. unfold FUEL. cbn -[finish]. rewrite finish_total. destruct hd; reflexivity. Qed.
 
 Lemma drain_request ri c a :
   drain FUEL [IRequest ri] c a
-  = Some (set_cli c None,
-          EDispatch :: EWrite (a_app a) (resp_version (rver ri)) (negb (keepalive ri))
+  = Some (fin c,
+          EDispatch :: EWrite (a_app a) (resp_version (rver ri)) (negb (keepalive ri)) (is_head ri)
             :: (if negb (keepalive ri) then [EClose] else []), []).
-Proof. unfold FUEL. cbn. destruct (keepalive ri); reflexivity. Qed.
+Proof. unfold FUEL. cbn -[finish]. destruct (is_head ri); rewrite finish_total; destruct (keepalive ri); reflexivity. Qed.
 
 Lemma drain_exc c a :
   drain FUEL [IExc SRead] c a
   = match a_excreq a with
     | Raise => Some (c, [], [TExcReq])
-    | Ret _ => Some (set_cli c None, [EReject 500; EWrite 500 (1, 1) true; EClose], [TExcReq])
+    | Ret _ => Some (fin c, [EReject 500; EWrite 500 (1, 1) true false; EClose], [TExcReq])
     end.
-Proof. unfold FUEL. cbn. destruct (a_excreq a); reflexivity. Qed.
+Proof. unfold FUEL. cbn -[finish]. destruct (a_excreq a); [reflexivity|]. cbn -[finish]. rewrite finish_total. reflexivity. Qed.
 
 (* ---------- what _on_read can return ---------- *)
 
@@ -55,11 +64,11 @@ Inductive hres_ok : hres -> Prop :=
 | ok_raise : hres_ok HRaise
 | ok_wait : hres_ok (HRet [])
 | ok_close : hres_ok (HRet [IClose])
-| ok_error code v : In code [301; 400; 505] -> hres_ok (HRet [IHttpError code (resp_version v)])
+| ok_error code v hd : In code [301; 400; 505] -> hres_ok (HRet [IHttpError code (resp_version v) hd])
 | ok_request ri : hres_ok (HRet [IRequest ri]).
 
-Lemma reject_ok c code v tags : buf c = true -> In code [301; 400; 505] ->
-  hres_ok (hres_of (reject c code v tags)).
+Lemma reject_ok c code v hd tags : buf c = true -> In code [301; 400; 505] ->
+  hres_ok (hres_of (reject c code v hd tags)).
 Proof. intros B I. unfold reject, del_buf. rewrite B. cbn. now constructor. Qed.
 
 Lemma body_gate_ok c a f ri tags : buf c = true -> hres_ok (hres_of (body_gate c a f ri tags)).
@@ -88,7 +97,7 @@ Proof.
   destruct (a_exec a) as [|f]; [constructor|].
   destruct (negb (hc f)); [|now apply headers_done_ok].
   destruct (perrno f) as [e|]; [|constructor].
-  destruct (a_errreq a) as [|v]; [constructor|].
+  destruct (a_errreq a) as [|[v hd]]; [constructor|].
   apply reject_ok; cbn; auto.
 Qed.
 
@@ -105,10 +114,10 @@ Qed.
 Inductive shape : list eff -> Prop :=
 | sh_wait : shape []
 | sh_close : shape [EClose]
-| sh_reject code v : In code [301; 400; 500; 505] -> okver v ->
-    shape [EReject code; EWrite code v true; EClose]
-| sh_request st v cl : okver v ->
-    shape (EDispatch :: EWrite st v cl :: (if cl then [EClose] else [])).
+| sh_reject code v hd : In code [301; 400; 500; 505] -> okver v ->
+    shape [EReject code; EWrite code v true hd; EClose]
+| sh_request st v cl hd : okver v ->
+    shape (EDispatch :: EWrite st v cl hd :: (if cl then [EClose] else [])).
 
 Theorem read_shape secure c a : shape (effs_of (read_conn secure c a)).
 Proof.
@@ -126,39 +135,39 @@ Qed.
 
 (* corollaries in the words of the property *)
 
-Definition is_write (e : eff) : bool := match e with EWrite _ _ _ => true | _ => false end.
+Definition is_write (e : eff) : bool := match e with EWrite _ _ _ _ => true | _ => false end.
 Definition n_writes (l : list eff) : nat := length (filter is_write l).
 
 Ltac inl H := cbn in H; repeat (destruct H as [H|H]; [try discriminate H|]); try (now destruct H).
 
 Lemma shape_never_crash l : shape l -> ~ In ECrash l /\ ~ In EOutOfFuel l.
 Proof.
-  intros S. destruct S as [| |k v Hk Hv|st v cl Hv]; try destruct cl; split; intros F; inl F.
+  intros S. destruct S as [| |k v hd Hk Hv|st v cl hd Hv]; try destruct cl; split; intros F; inl F.
 Qed.
 
 Lemma shape_one l : shape l -> (n_writes l <= 1)%nat.
-Proof. intros S. destruct S as [| |k v Hk Hv|st v cl Hv]; try destruct cl; cbn; auto. Qed.
+Proof. intros S. destruct S as [| |k v hd Hk Hv|st v cl hd Hv]; try destruct cl; cbn; auto. Qed.
 
 Lemma shape_reject l code : shape l -> In (EReject code) l ->
   ~ In EDispatch l /\ In code [301; 400; 500; 505]
-  /\ exists v, okver v /\ l = [EReject code; EWrite code v true; EClose].
+  /\ exists v hd, okver v /\ l = [EReject code; EWrite code v true hd; EClose].
 Proof.
-  intros S I. destruct S as [| |k v Hk Hv|st v cl Hv]; try destruct cl; inl I.
-  injection I as ->. split; [intros F; inl F|]. split; [exact Hk|]. exists v. auto.
+  intros S I. destruct S as [| |k v hd Hk Hv|st v cl hd Hv]; try destruct cl; inl I.
+  injection I as ->. split; [intros F; inl F|]. split; [exact Hk|]. exists v, hd. auto.
 Qed.
 
-Lemma shape_close l st v : shape l -> In (EWrite st v true) l ->
-  exists pre, l = pre ++ [EWrite st v true; EClose].
+Lemma shape_close l st v hd : shape l -> In (EWrite st v true hd) l ->
+  exists pre, l = pre ++ [EWrite st v true hd; EClose].
 Proof.
-  intros S I. destruct S as [| |k v' Hk Hv|st' v' cl Hv]; try destruct cl; inl I.
-  all: try (injection I as -> ->; first [now exists [EReject st] | now exists [EDispatch]]).
+  intros S I. destruct S as [| |k v' hd' Hk Hv|st' v' cl hd' Hv]; try destruct cl; inl I.
+  all: try (injection I as -> -> ->; first [now exists [EReject st] | now exists [EDispatch]]).
   all: try discriminate I.
 Qed.
 
-Lemma shape_version l st v cl : shape l -> In (EWrite st v cl) l -> okver v.
+Lemma shape_version l st v cl hd : shape l -> In (EWrite st v cl hd) l -> okver v.
 Proof.
-  intros S I. destruct S as [| |k v' Hk Hv|st' v' cl' Hv]; try destruct cl'; inl I;
-    injection I as _ <- _; exact Hv.
+  intros S I. destruct S as [| |k v' hd' Hk Hv|st' v' cl' hd' Hv]; try destruct cl'; inl I;
+    injection I as _ <- _ _; exact Hv.
 Qed.
 
 Theorem never_crash secure c a :
@@ -172,39 +181,43 @@ Theorem rejected_not_dispatched secure c a code :
   In (EReject code) (effs_of (read_conn secure c a)) ->
   ~ In EDispatch (effs_of (read_conn secure c a))
   /\ In code [301; 400; 500; 505]
-  /\ exists v, okver v /\ effs_of (read_conn secure c a) = [EReject code; EWrite code v true; EClose].
+  /\ exists v hd, okver v /\ effs_of (read_conn secure c a) = [EReject code; EWrite code v true hd; EClose].
 Proof. apply shape_reject, read_shape. Qed.
 
-Theorem close_when_said secure c a st v :
-  In (EWrite st v true) (effs_of (read_conn secure c a)) ->
-  exists pre, effs_of (read_conn secure c a) = pre ++ [EWrite st v true; EClose].
+Theorem close_when_said secure c a st v hd :
+  In (EWrite st v true hd) (effs_of (read_conn secure c a)) ->
+  exists pre, effs_of (read_conn secure c a) = pre ++ [EWrite st v true hd; EClose].
 Proof. apply shape_close, read_shape. Qed.
 
-Theorem version_spoken secure c a st v cl :
-  In (EWrite st v cl) (effs_of (read_conn secure c a)) -> okver v.
+Theorem version_spoken secure c a st v cl hd :
+  In (EWrite st v cl hd) (effs_of (read_conn secure c a)) -> okver v.
 Proof. apply shape_version, read_shape. Qed.
 
 (* a parser error before the end of the headers is answered 400 and nothing is kept *)
-Theorem parser_error_reported secure c a f e v :
+Theorem parser_error_reported secure c a f e v hd :
   buf c = true \/ a_ssl a = Ret false ->
-  a_exec a = Ret f -> hc f = false -> perrno f = Some e -> a_errreq a = Ret v ->
+  a_exec a = Ret f -> hc f = false -> perrno f = Some e -> a_errreq a = Ret (v, hd) ->
   effs_of (read_conn secure c a)
-  = [EReject 400; EWrite 400 (resp_version (match e with BadFirstLine => (1, 1) | _ => v end)) true; EClose]
+  = [EReject 400; EWrite 400 (resp_version (match e with BadFirstLine => (1, 1) | _ => v end)) true
+                         (match e with BadFirstLine => false | _ => hd end); EClose]
   /\ conn_of (read_conn secure c a) = empty_conn.
 Proof.
   intros Hs Hx Hh He Hr. unfold read_conn, on_read.
+  assert (E : forall c0, fin (set_buf c0 false) = empty_conn).
+  { intros [b [r|]]; reflexivity. }
   assert (G : forall c1 tags, buf c1 = true ->
     after_exec c1 a tags
     = (set_buf c1 false,
-       HRet [IHttpError 400 (resp_version (match e with BadFirstLine => (1, 1) | _ => v end))],
+       HRet [IHttpError 400 (resp_version (match e with BadFirstLine => (1, 1) | _ => v end))
+                        (match e with BadFirstLine => false | _ => hd end)],
        (tags ++ [TExec]) ++ [TErrReq])).
   { intros c1 tags B. unfold after_exec. rewrite Hx, Hh. cbn. rewrite He, Hr.
     unfold reject, del_buf. rewrite B. reflexivity. }
   destruct (buf c) eqn:B.
-  - rewrite (G c [] B). rewrite drain_httperror. cbn. split; [reflexivity|].
-    unfold empty_conn, set_cli, set_buf. reflexivity.
+  - rewrite (G c [] B). rewrite drain_httperror. cbn [effs_of conn_of fst snd]. split; [reflexivity|apply E].
   - destruct Hs as [Hs|Hs]; [discriminate|]. rewrite Hs. cbn [andb].
-    rewrite (G (set_buf c true) [TSsl] eq_refl). rewrite drain_httperror. cbn. split; reflexivity.
+    rewrite (G (set_buf c true) [TSsl] eq_refl). rewrite drain_httperror. cbn [effs_of conn_of fst snd].
+    split; [reflexivity|]. destruct c as [b [r|]]; reflexivity.
 Qed.
 
 (* an oracle that raises on the read path is answered 500 (unless the exception handler's own
@@ -212,7 +225,7 @@ Qed.
 Theorem raise_answered secure c a :
   hres_of (on_read secure c a) = HRaise ->
   effs_of (read_conn secure c a)
-  = match a_excreq a with Raise => [] | Ret _ => [EReject 500; EWrite 500 (1, 1) true; EClose] end.
+  = match a_excreq a with Raise => [] | Ret _ => [EReject 500; EWrite 500 (1, 1) true false; EClose] end.
 Proof.
   unfold read_conn, hres_of. destruct (on_read secure c a) as [[c1 h] tags]. cbn [fst snd]. intros ->.
   rewrite drain_exc. destruct (a_excreq a); reflexivity.
@@ -255,7 +268,7 @@ Proof.
   unfold after_exec, hres_of.
   destruct (a_exec a) as [|f] eqn:X; [discriminate|].
   destruct (hc f) eqn:Hh; cbn [negb].
-  2:{ destruct (perrno f); [|discriminate]. destruct (a_errreq a); [discriminate|].
+  2:{ destruct (perrno f); [|discriminate]. destruct (a_errreq a) as [|[v0 h0]]; [discriminate|].
       unfold reject. destruct (del_buf c); discriminate. }
   unfold headers_done. destruct (cli c) as [r0|] eqn:C.
   - intros H. apply body_gate_request in H as (-> & n & Hn & H0 & Hm & Hho & Hp).
@@ -342,7 +355,7 @@ Definition st_ok (c1 : conn) (h : hres) : Prop :=
   | _ => True
   end.
 
-Lemma reject_st c code v tags : st_ok (hconn_of (reject c code v tags)) (hres_of (reject c code v tags)).
+Lemma reject_st c code v hd tags : st_ok (hconn_of (reject c code v hd tags)) (hres_of (reject c code v hd tags)).
 Proof. unfold reject. destruct (del_buf c); exact I. Qed.
 
 Lemma body_gate_st c a f ri tags :
@@ -364,7 +377,7 @@ Proof.
   destruct (a_exec a) as [|f]; [exact Hi|].
   destruct (negb (hc f)).
   - destruct (perrno f) as [e|]; [|exact Hi].
-    destruct (a_errreq a) as [|v]; [exact Hi|apply reject_st].
+    destruct (a_errreq a) as [|[v hd]]; [exact Hi|apply reject_st].
   - unfold headers_done. destruct (cli c) as [r0|] eqn:C; [now apply body_gate_st|].
     destruct (a_req a) as [|r1]; [exact Hi|].
     destruct (fst (rver r1) =? 1) eqn:Mj; cbn [negb]; [|exact I].
@@ -382,8 +395,8 @@ Proof.
   now apply after_exec_st.
 Qed.
 
-Lemma inv_cleared c : inv (set_cli c None).
-Proof. intros ri H. discriminate. Qed.
+Lemma inv_cleared c : inv (fin c).
+Proof. intros ri H. rewrite fin_cli in H. discriminate. Qed.
 
 Theorem read_conn_inv secure c a : inv c -> inv (conn_of (read_conn secure c a)).
 Proof.
